@@ -6,7 +6,11 @@
 (* the harness feeds each to the real parser under catch_unwind.            *)
 EXTENDS Integers, Sequences, FiniteSets, TLC, Json
 CONSTANTS L
-Alphabet == {"x", "y", "-", "+", "/", "*", "1", "0", ",", "(", ")", " ", "q", "\\u00e9", "\\uff09"}
+\* junk: an unknown letter, accented and full-width characters (multi-byte), and characters that
+\* Unicode classifies as numeric without being ASCII digits (one half, superscript two, an
+\* Arabic-Indic digit, a full-width digit)
+Alphabet == {"x", "y", "-", "+", "/", "*", "1", "0", ",", "(", ")", " ", "q", "\\u00e9", "\\uff09",
+             "\\u00bd", "\\u00b2", "\\u0662", "\\uff12"}
 VARIABLES chars
 Init == chars = <<>>
 Next == Len(chars) < L /\ \E a \in Alphabet : chars' = Append(chars, a)
